@@ -698,8 +698,8 @@ Section Fix.
   (* the guards, all stated on what the first build hands to its final strip ([pre]) and on its output:
      - [meta_clean]: metadata has one annotations field with distinct keys (every parsed YAML document);
      - legacy order: the order decides every pair of distinct output ids (C11's valid ids);
-       other orders: the output ids are pairwise distinct and no output carries local-config - EXACTLY what the
-       C07 finding (a local-config resource named like a hashed generated one) violates;
+       other orders: the output ids are pairwise distinct - EXACTLY what the C07 finding (a local-config resource
+       named like a hashed generated one) violates; that no output carries local-config then follows;
      - the name-reference pass of the second build leaves the loaded documents alone. *)
   Definition node_order_total (first last : list string) (docs : list node) : Prop :=
     order_total first last (map load docs).
@@ -710,7 +710,7 @@ Section Fix.
     let outs := map strip_node pre in
     (match o with
      | PSortLegacy first last => node_order_total first last outs
-     | _ => distinct_node_ids outs /\ forall n, In n outs -> is_local n = false
+     | _ => distinct_node_ids outs
      end) ->
     pipe_rules = Ok rules ->
     nameref_transform pipe_cs nonstr rules (map load outs) = Ok (map load outs) ->
@@ -732,11 +732,11 @@ Section Fix.
       rewrite !Hg. exact Hab. }
     assert (D3 : distinct_ids m3).
     { destruct o as [| |first last].
-      - destruct G as [G _]. rewrite Eouts in G. clear -G Hg.
+      - rewrite Eouts in G. clear -G Hg.
         induction m3 as [|x t IH]; cbn in *; [auto|]. destruct G as [G1 G2]. split; [|auto].
         intros y Hy. specialize (G1 (strip_node (r_node y)) (in_map _ _ _ Hy)). unfold node_rid in G1.
         rewrite !Hg in G1. exact G1.
-      - destruct G as [G _]. rewrite Eouts in G. clear -G Hg.
+      - rewrite Eouts in G. clear -G Hg.
         induction m3 as [|x t IH]; cbn in *; [auto|]. destruct G as [G1 G2]. split; [|auto].
         intros y Hy. specialize (G1 (strip_node (r_node y)) (in_map _ _ _ Hy)). unfold node_rid in G1.
         rewrite !Hg in G1. exact G1.
@@ -766,3 +766,62 @@ Section Fix.
   Qed.
 End Fix.
 
+
+(* ================= why the name-reference hypothesis of the fixpoint is mild =================
+   Resources loaded from a file have an empty rename history; selectReferral only ever selects a candidate one of
+   whose PREVIOUS ids carries the referenced name, so against history-free candidates no reference is rewritten:
+   Filter.set returns the node it was given (or fails on a malformed reference, exactly as in the first build). *)
+Definition history_free (cands : list cand) : Prop := forall c, In c cands -> c_prev c = [].
+
+Lemma select_referral_history_free x old cands idf :
+  history_free cands -> select_referral x old cands idf = Ok None.
+Proof.
+  intros H. unfold select_referral, sieve4.
+  assert (E : filter (prev_name_matches old) cands = []).
+  { induction cands as [|c t IH]; cbn; [reflexivity|].
+    unfold prev_name_matches at 1. rewrite (H c (or_introl eq_refl)). cbn.
+    apply IH. intros c' Hc'. apply H. right. exact Hc'. }
+  rewrite E. reflexivity.
+Qed.
+
+Lemma by_namespace_history_free ns cands : history_free cands -> history_free (by_namespace ns cands).
+Proof.
+  intros H c Hc. unfold by_namespace in Hc. destruct (String.eqb ns totally_not_a_namespace); [destruct Hc|].
+  destruct (filter _ cands) as [|c0 l0] eqn:E.
+  - apply filter_In in Hc. apply H. tauto.
+  - rewrite <- E in Hc. apply filter_In in Hc. apply H. tauto.
+Qed.
+
+Section NrPure.
+  Variable nonstr : string -> bool.
+
+  Lemma nr_set_history_free x cands n n' :
+    history_free cands -> nr_set nonstr x cands n = Ok n' -> n' = n.
+  Proof.
+    intros H.
+    assert (S : forall e e', nr_set_scalar x cands e = Ok e' -> e' = e).
+    { intros e e' E. unfold nr_set_scalar in E. rewrite (select_referral_history_free _ _ _ _ H) in E.
+      cbn [bind] in E. inv E. reflexivity. }
+    assert (M : forall e e', nr_set_mapping nonstr x cands e = Ok e' -> e' = e).
+    { intros e e' E. unfold nr_set_mapping in E. destruct e as [t s v|kvs|es]; try discriminate.
+      destruct (find_field "name" kvs); [|discriminate].
+      rewrite select_referral_history_free in E.
+      - cbn [bind] in E. inv E. reflexivity.
+      - unfold mapping_cands. destruct (find_field "namespace" kvs); [|exact H].
+        apply by_namespace_history_free. exact H. }
+    unfold nr_set. destruct (is_null n); [intros E; inv E; reflexivity|].
+    destruct n as [t s v|kvs|es]; [apply S|apply M|].
+    intros E. destruct (mapM (nr_set_elem nonstr x cands) es) as [es'| | |] eqn:EM; cbn [bind] in E; try discriminate.
+    inv E. f_equal. clear -EM S M. revert es' EM. induction es as [|e t IH]; cbn; intros es' EM.
+    - inv EM. reflexivity.
+    - destruct (nr_set_elem nonstr x cands e) as [e'| | |] eqn:Ee; cbn [bind] in EM; try discriminate.
+      destruct (mapM (nr_set_elem nonstr x cands) t) as [t'| | |] eqn:Et; cbn [bind] in EM; try discriminate.
+      inv EM. rewrite (IH t' eq_refl). f_equal.
+      unfold nr_set_elem in Ee. destruct (is_null e); [inv Ee; reflexivity|].
+      destruct e as [t0 s0 v0|kvs0|es0]; [apply S|apply M|discriminate]; exact Ee.
+  Qed.
+
+  (* a resource read from a file presents itself as a history-free candidate *)
+  Lemma view_loaded n c : view cs (load n) = Ok c -> c_prev c = [].
+  Proof. unfold view, prev_ids, load. cbn. intros H. inv H. reflexivity. Qed.
+End NrPure.
